@@ -18,6 +18,7 @@ package sqlittle
 //@ func (*db.Database).Schema
 //@   ghost-exit schema_calls = schema_calls + 1
 //@   ensures [counted] schema_calls == old(schema_calls) + 1
+//@   ensures [built-now] err == nil ==> fresh(r0)
 //@   props C06 C10 C05 C08
 //@   modifies * -M:S_db_KeyCol -M:S_sqlittle_columnIndex hdr_valid hdr_ps hdr_cookie jr_pos peer_state created
 //@   requires db != nil
@@ -141,6 +142,7 @@ package sqlittle
 //@   opt params=cbrow
 //@   modifies * -M:S_db_KeyCol -M:S_sqlittle_columnIndex pos halt
 //@   requires [nohalt] !halt
+//@   requires [arow] reg(cbrow) != 0
 //@   requires [item] !direct ==> (!ixmode ==> rowfor(cbrow, tb_rowid(cur_tree, pos), tb_payload(cur_tree, pos))) && (ixmode && !viaidx && !vianr ==> rowfor(cbrow, 0, ix_payload(cur_tree, pos)))
 //@   requires [viaindex] !direct && ixmode && viaidx ==> VIAROW(cbrow)
 //@   ensures pos == old(pos) + 1 && !halt
@@ -535,6 +537,7 @@ package sqlittle
 //@   ensures [int] 0 <= i && i < len(r) && isInt64(r[i]) ==> r0 == asInt64(r[i]) && r1 == nil
 //@   ensures [text] 0 <= i && i < len(r) && isString(r[i]) && parse_int_ok(asString(r[i])) ==> r0 == parse_int(asString(r[i])) && r1 == nil
 //@   ensures [badtext] 0 <= i && i < len(r) && isString(r[i]) && !parse_int_ok(asString(r[i])) && !parse_float_ok(asString(r[i])) ==> r1 != nil
+//@   ensures [real] 0 <= i && i < len(r) && isFloat64(r[i]) ==> r0 == f64toi64(asFloat64(r[i])) && r1 == nil
 
 //@ func (sqlittle.Row).scanFloat64
 //@   props C18 C05
